@@ -118,6 +118,22 @@ class Recon:
             return ('dict', tuple((self.ex(k, env) if k else None, self.ex(v, env)) for k, v in zip(n.keys, n.values)))
         if isinstance(n, ast.Starred):
             return ('star', self.ex(n.value, env))
+        if isinstance(n, ast.Set):
+            return ('set', tuple(self.ex(e, env) for e in n.elts))
+        if isinstance(n, ast.JoinedStr):
+            return ('fstr', tuple(self.ex(v, env) for v in n.values))
+        if isinstance(n, ast.FormattedValue):
+            return ('fmt', self.ex(n.value, env), n.conversion, self.ex(n.format_spec, env) if n.format_spec else None)
+        if isinstance(n, (ast.Yield, ast.YieldFrom)):
+            t = ('yield', self.ex(n.value, env) if n.value is not None else ('const', None))
+            self.events.append(Event('yield', tuple(env.get('__conds__', ())), (t[1],), n))
+            return t
+        if isinstance(n, ast.Lambda):
+            e2 = dict(env)
+            names = [a.arg for a in n.args.posonlyargs + n.args.args + n.args.kwonlyargs]
+            for k, a in enumerate(names):
+                e2[a] = ('lambdaarg', k)
+            return ('lambda', len(names), self.ex(n.body, e2))
         return ('opaque', ast.unparse(n))
 
     def comp(self, n, env):
@@ -225,7 +241,12 @@ class Recon:
                 # store through an attribute / nested subscript: data.sampledata[F][sample] = v
                 self.events.append(Event('deepstore', conds, (self.ex(tgt.value, env), idx, val, ast.unparse(tgt)), node))
                 if root is not None and root in env:
-                    env[root] = ('out', 'deepstore', ast.unparse(tgt.value), ('tuple', (env[root], idx, val)))
+                    # the access path from the root to the stored-into object, without local names
+                    path_, v_ = [], tgt.value
+                    while isinstance(v_, (ast.Subscript, ast.Attribute)):
+                        path_.append('.' + v_.attr if isinstance(v_, ast.Attribute) else '[' + ckey(self.ex(v_.slice, env)) + ']')
+                        v_ = v_.value
+                    env[root] = ('out', 'deepstore', ''.join(reversed(path_)), ('tuple', (env[root], idx, val)))
         elif isinstance(tgt, ast.Attribute):
             self.events.append(Event('attrstore', conds, (self.ex(tgt.value, env), tgt.attr, val), node))
             if isinstance(tgt.value, ast.Name) and tgt.value.id in env:
